@@ -1,0 +1,122 @@
+//go:build verif
+
+// Machine-checked contracts for package datastore (comment-only; read by /verif/cmd/govc).
+
+package datastore
+
+// ---- mutation ids (C12): unique, strictly increasing, below the persisted high-water mark ----
+// Representation invariant of a repo's counter: mutCurID < mutSavedID, and mutSavedID is the
+// value last persisted under the repo's mutation-id key (ghost `persisted`).
+
+//@ func repoT.newMutationID
+//@   prop C12
+//@   requires r != nil && r.mutCurID < r.mutSavedID && r.mutSavedID <= 0xFFFFFFFFFFFFFF00
+//@   requires manager != nil && manager.store != nil && !manager.readOnly
+//@   modifies r.mutCurID, r.mutSavedID
+//@   ghost persisted uint64 = r.mutSavedID
+//@   ghostset at "if err := manager.store.Put(ctx, tk, mutdata); err != nil {": persisted = le64(mutdata, 0)
+//@   ensures mutID == old(r.mutCurID) && r.mutCurID == old(r.mutCurID) + 1
+//@   ensures mutID < old(r.mutSavedID)
+//@   ensures r.mutCurID < r.mutSavedID && r.mutSavedID >= old(r.mutSavedID)
+//@   ensures persisted == r.mutSavedID
+
+//@ func repoT.initMutationID
+//@   prop C12 C03
+//@   requires r != nil && store != nil && mutationIDStart <= 0xFFFFFFFFFFFF0000
+//@   modifies r.mutCurID, r.mutSavedID
+//@   ghost persisted uint64 = 0
+//@   ghost loaded uint64 = 0
+//@   ghostset at "if r.mutCurID < mutationIDStart {": loaded = ite(len(mutdata) == 8, le64(mutdata, 0), 0)
+//@   ghostset at "if err := store.Put(ctx, tk, mutdata); err != nil {": persisted = le64(mutdata, 0)
+//@   ensures result == nil ==> r.mutCurID >= mutationIDStart && r.mutCurID >= loaded
+//@   ensures result == nil && !readOnly && r.mutCurID <= 0xFFFFFFFFFFFF0000 ==> r.mutCurID < r.mutSavedID && persisted == r.mutSavedID
+
+// ---- start-up: the next version id is above every known version id (C04, C12, C07) ----
+// Whatever the persisted metadata looks like (including the state left by a crash between the two
+// writes of newUUID), after loadMetadata no existing version id can be issued again.
+
+//@ func repoManager.loadMetadata
+//@   prop C04 C12
+//@   safety_off
+//@   requires m != nil
+//@   modifies *
+//@   assume at "m.versionID = v + 1": v < 0xFFFFFFFF
+//@   invariant loop 3: forall v dvid.VersionID :: visited3[v] ==> v < m.versionID
+//@   assert at "if saveIDs {": forall v dvid.VersionID :: has(m.versionToUUID, v) ==> v < m.versionID
+
+// ---- repo / version / instance id allocators (C12, C06, C07) ----
+// Ghost pRepo, pVer, pInst: the counters last persisted under the new-ids key.
+
+//@ func repoManager.putNewIDs
+//@   prop C12
+//@   requires m != nil && (m.readOnly || m.store != nil)
+//@   modifies ghost pRepo, ghost pVer, ghost pInst
+//@   ghost pRepo dvid.RepoID = arbitrary()
+//@   ghost pVer dvid.VersionID = arbitrary()
+//@   ghost pInst dvid.InstanceID = arbitrary()
+//@   ghostset at "return m.store.Put(ctx, storage.NewTKey(newIDsKey, nil), value)": pRepo = dvid.RepoID(be32(value, 0))
+//@   ghostset at "return m.store.Put(ctx, storage.NewTKey(newIDsKey, nil), value)": pVer = dvid.VersionID(be32(value, 4))
+//@   ghostset at "return m.store.Put(ctx, storage.NewTKey(newIDsKey, nil), value)": pInst = dvid.InstanceID(be32(value, 8))
+//@   ensures !m.readOnly && result == nil ==> pRepo == m.repoID && pVer == m.versionID && pInst == m.instanceID
+//@   ensures m.readOnly ==> result == nil && pRepo == old(pRepo) && pVer == old(pVer) && pInst == old(pInst)
+
+//@ func repoManager.loadNewIDs
+//@   prop C12 C03
+//@   requires m != nil && m.store != nil
+//@   modifies m.repoID, m.versionID, m.instanceID
+//@   ghost loaded []byte = nil
+//@   ghostset at "if len(value) != dvid.RepoIDSize+dvid.VersionIDSize+dvid.InstanceIDSize {": loaded = value
+//@   ensures result == nil ==> len(loaded) == 12
+//@   ensures result == nil ==> uint32(m.repoID) == be32(loaded, 0)
+//@   ensures result == nil ==> uint32(m.versionID) == be32(loaded, 4)
+//@   ensures result == nil ==> uint32(m.instanceID) == be32(loaded, 8)
+//@   ensures result != nil ==> m.repoID == old(m.repoID) && m.versionID == old(m.versionID) && m.instanceID == old(m.instanceID)
+
+//@ func repoManager.newInstanceID
+//@   prop C12 C06
+//@   requires m != nil && (m.readOnly || m.store != nil)
+//@   modifies m.instanceID, ghost pRepo, ghost pVer, ghost pInst
+//@   ghost pRepo dvid.RepoID = arbitrary()
+//@   ghost pVer dvid.VersionID = arbitrary()
+//@   ghost pInst dvid.InstanceID = arbitrary()
+//@   invariant loop 1: !invalidID ==> !has(m.iids, curid)
+//@   invariant loop 1: !invalidID && m.instanceIDGen == "sequential" ==> curid + 1 == m.instanceID
+//@   invariant loop 1: !invalidID && m.instanceIDGen == "sequential" && !m.readOnly && err == nil ==> pInst == m.instanceID
+//@   ensures !has(m.iids, result0)
+//@   ensures m.instanceIDGen == "sequential" ==> result0 + 1 == m.instanceID
+//@   ensures m.instanceIDGen == "sequential" && !m.readOnly && result1 == nil ==> pInst == m.instanceID
+
+//@ func repoManager.newRepoID
+//@   prop C12
+//@   requires m != nil && (m.readOnly || m.store != nil)
+//@   modifies m.repoID, ghost pRepo, ghost pVer, ghost pInst
+//@   ghost pRepo dvid.RepoID = arbitrary()
+//@   ghost pVer dvid.VersionID = arbitrary()
+//@   ghost pInst dvid.InstanceID = arbitrary()
+//@   ensures result0 == old(m.repoID) && m.repoID == old(m.repoID) + 1
+//@   ensures !m.readOnly && result1 == nil ==> pRepo == m.repoID
+
+//@ func repoManager.newUUID
+//@   prop C12 C07
+//@   requires m != nil && (m.readOnly || m.store != nil) && m.versionToUUID != nil && m.uuidToVersion != nil
+//@   modifies m.versionID, m.versionToUUID[*], m.uuidToVersion[*], ghost pRepo, ghost pVer, ghost pInst
+//@   ghost pRepo dvid.RepoID = arbitrary()
+//@   ghost pVer dvid.VersionID = arbitrary()
+//@   ghost pInst dvid.InstanceID = arbitrary()
+//@   ensures result1 == old(m.versionID) && m.versionID == old(m.versionID) + 1
+//@   ensures has(m.versionToUUID, result1) && m.versionToUUID[result1] == result0 && has(m.uuidToVersion, result0) && m.uuidToVersion[result0] == result1
+//@   ensures assign != nil ==> result0 == old(*assign)
+//@   ensures forall v dvid.VersionID :: v != result1 ==> (has(m.versionToUUID, v) == old(has(m.versionToUUID, v)))
+//@   ensures !m.readOnly && result2 == nil ==> pVer == m.versionID
+
+//@ func repoManager.newVersionID
+//@   prop C12 C07
+//@   requires m != nil && (m.readOnly || m.store != nil) && m.versionToUUID != nil && m.uuidToVersion != nil
+//@   modifies m.versionID, m.versionToUUID[*], m.uuidToVersion[*], ghost pRepo, ghost pVer, ghost pInst
+//@   ghost pRepo dvid.RepoID = arbitrary()
+//@   ghost pVer dvid.VersionID = arbitrary()
+//@   ghost pInst dvid.InstanceID = arbitrary()
+//@   ensures old(has(m.uuidToVersion, uuid)) ==> result1 != nil && m.versionID == old(m.versionID)
+//@   ensures !old(has(m.uuidToVersion, uuid)) ==> result0 == old(m.versionID) && m.versionID == old(m.versionID) + 1
+//@   ensures !old(has(m.uuidToVersion, uuid)) && save ==> has(m.versionToUUID, result0) && m.versionToUUID[result0] == uuid && m.uuidToVersion[uuid] == result0
+//@   ensures !old(has(m.uuidToVersion, uuid)) && !m.readOnly && result1 == nil ==> pVer == m.versionID
